@@ -27,7 +27,13 @@ structure Loc where
   deriving DecidableEq, Repr
 
 abbrev Val := Int
-abbrev Mem := Loc → Val
+/-- the memory: a total function from locations to values. It is wrapped in a structure only so that
+the compiled driver evaluates a memory update when the step runs (a bare function type would make
+`Step.exec s m` a partial application that is re-run at every later read). -/
+structure Mem where
+  get : Loc → Val
+
+instance : CoeFun Mem (fun _ => Loc → Val) := ⟨Mem.get⟩
 
 /-- one atomic step of a kernel: `dst := op (values at srcs)`. The result depends on the memory
 only through `srcs` and only `dst` changes — by construction. `op` is an arbitrary function. -/
@@ -36,9 +42,13 @@ structure Step where
   srcs : List Loc
   op : List Val → Val
 
-def Mem.set (m : Mem) (l : Loc) (v : Val) : Mem := fun x => if x = l then v else m x
+/-- memory update `m[l := v]` -/
+def Mem.set (m : Mem) (l : Loc) (v : Val) : Mem := ⟨fun x => if x = l then v else m.get x⟩
 
-def Step.exec (s : Step) (m : Mem) : Mem := m.set s.dst (s.op (s.srcs.map m))
+theorem Mem.set_apply (m : Mem) (l : Loc) (v : Val) (x : Loc) :
+    (m.set l v).get x = if x = l then v else m.get x := rfl
+
+def Step.exec (s : Step) (m : Mem) : Mem := m.set s.dst (s.op (s.srcs.map m.get))
 
 /-- thread id ↦ its program (threads without a program have the empty list) -/
 abbrev Progs := Nat → List Step
@@ -242,10 +252,10 @@ def progsOf (steps : List (Nat × Step)) : Progs :=
   fun t => (steps.filter (fun p => p.1 == t)).map (·.2)
 
 /-- initial memory of generated cases: a fixed mixing function of the location -/
-def initMem (seed : Int) : Mem := fun l =>
+def initMem (seed : Int) : Mem := ⟨fun l =>
   let r : Int := match l.region with
     | .sharedRO => 1 | .interp => 2 | .priv t => 3 + t
-  (seed * 7919 + r * 104729 + (l.idx : Int) * 1299709) % 1000
+  (seed * 7919 + r * 104729 + (l.idx : Int) * 1299709) % 1000⟩
 
 def dumpPriv (m : Mem) (nthreads nloc : Nat) : List Int :=
   (List.range nthreads).flatMap fun t => (List.range nloc).map fun i => m ⟨.priv t, i⟩
